@@ -121,8 +121,12 @@ def restore():
     del CALLS[:]
 
 
+URLS = ['u0', 'u1', 'u2', 'u3']
+NAMES = ['prov0', 'prov1', 'prov2', 'prov3']
+
+
 def url(i):
-    return 'u%d' % i
+    return URLS[i]
 
 
 def make_service(outs, prios, max_errors, max_providers, min_providers=1, network=NET_TEST, cache=None,
@@ -131,15 +135,15 @@ def make_service(outs, prios, max_errors, max_providers, min_providers=1, networ
     need_key are configured with the placeholder api key 'api-key-needed'"""
     k = len(outs)
     for i in range(k):
-        OUT[url(i)] = outs[i]
+        OUT[URLS[i]] = outs[i]
     srv = SV.Service.__new__(SV.Service)
     srv.network = network
     srv.providers = {}
     for i in range(k):
-        srv.providers['prov%d' % i] = dict(
-            provider='c20fake', client_class='FakeClient', url=url(i),
-            denominator=1, api_key='api-key-needed' if i in need_key else '', provider_coin_id='',
-            network_overrides=None, priority=prios[i], network=network.name)
+        srv.providers[NAMES[i]] = {
+            'provider': 'c20fake', 'client_class': 'FakeClient', 'url': URLS[i], 'denominator': 1,
+            'api_key': 'api-key-needed' if i in need_key else '', 'provider_coin_id': '', 'network_overrides': None,
+            'priority': prios[i], 'network': network.name}      # (a dict literal: dict(...) costs 10 ms under CrossHair)
     srv.min_providers = min_providers
     srv.max_providers = max_providers
     srv.max_errors = max_errors
